@@ -188,6 +188,9 @@ def _all_entries(gen_seed=0, gen_n=0):
     es = corpus.fixed() + corpus.expressions() + _local_entries() + corpus.demos()
     if gen_n:
         es += corpus.generated(gen_seed, gen_n)
+    for e in es:
+        if e.name == "demo_ComplexPoisson":     # sesquilinear demo: only compiles in complex mode
+            e.options = {**e.options, "scalar_type": "complex128"}
     return {e.name: e for e in es}
 
 
@@ -267,15 +270,12 @@ def worker(job):
         out["mesh_ids"] = sorted({d.ufl_id() for d in doms})
         if hist == "other-options-first":
             # the SAME objects, other options, first
-            first = {"language": "numba" if lang == "C" else "C", "scalar_type": "float32", **e.options}
+            other_st = "complex64" if "complex" in str(e.options.get("scalar_type", "")) else "float32"
+            first = {**e.options, "language": "numba" if lang == "C" else "C", "scalar_type": other_st}
             if e.options.get("sum_factorization"):
                 first["sum_factorization"] = False
             _compile(objs, first)
-            if e.kind == "form" and "sumfact" not in e.tags:
-                try:
-                    _compile(objs, {"language": lang, "scalar_type": "float32", **e.options})
-                except Exception:  # noqa: BLE001 - the target compile below is what counts
-                    pass
+            _compile(objs, {**e.options, "language": lang, "scalar_type": other_st})
         elif hist == "unrelated-after-build":
             keep = _unrelated_objects()
         emit(hist if hist != "fresh" else "fresh", _compile(objs, opts))
@@ -480,28 +480,40 @@ def _run_job(job, seed, scratch, timeout=900):
 
 
 def plan(tier, seed):
-    """(entries, jobs). A job = (entry, lang, hist, hash seed)."""
+    """(entry names, jobs). A job = ({entry, lang, hist, ...}, PYTHONHASHSEED).
+
+    quick:    QUICK_ENTRIES; C: fresh with seeds 0..3, the four histories with seeds 0,1; numba: fresh 0,1, histories 0.
+    thorough: every corpus entry + 16 generated forms (VERIF_SEED); C: fresh with seeds 0..31 (demos 0..15), histories
+              with seeds 0,1 (demos 0); numba: fresh 0..3 (demos 0,1), histories with seed 0 (not for demos).
+    `twice` (compile the same objects a second time in the same process) rides on every fresh job.
+    """
     jobs = []
+    hists = ["unrelated", "others-first", "other-options-first", "unrelated-after-build"]
     if tier == "quick":
         names = list(QUICK_ENTRIES)
-        seeds_c = [0, 1, 2, 3]
-        seeds_numba = [0, 1]
-        hist_seeds = [0, 1]
         gen = (0, 0)
+
+        def seeds(nm, lang, fresh):
+            if lang == "C":
+                return [0, 1, 2, 3] if fresh else [0, 1]
+            return [0, 1] if fresh else [0]
     else:
         gen = (seed, 16)
         names = list(_all_entries(*gen).keys())
-        seeds_c = list(range(32))
-        seeds_numba = list(range(8))
-        hist_seeds = [0, 1, 2, 3]
-    hists = ["unrelated", "others-first", "other-options-first", "unrelated-after-build"]
+
+        def seeds(nm, lang, fresh):
+            demo = nm.startswith("demo_")
+            if lang == "C":
+                return list(range(16 if demo else 32)) if fresh else ([0] if demo else [0, 1])
+            return list(range(2 if demo else 4)) if fresh else ([] if demo else [0])
     for nm in names:
-        for lang, seeds in (("C", seeds_c), ("numba", seeds_numba)):
-            for s in seeds:
-                jobs.append(({"entry": nm, "lang": lang, "hist": "fresh", "gen_seed": gen[0], "gen_n": gen[1]}, s))
-            for h in hists + (["same-signature-variant"] if nm.startswith("c12_") and nm in VARIANT_ENTRIES else []):
-                for s in (hist_seeds if lang == "C" else hist_seeds[:1]):
-                    jobs.append(({"entry": nm, "lang": lang, "hist": h, "gen_seed": gen[0], "gen_n": gen[1]}, s))
+        for lang in ("C", "numba"):
+            base = {"entry": nm, "lang": lang, "gen_seed": gen[0], "gen_n": gen[1]}
+            for s in seeds(nm, lang, True):
+                jobs.append(({**base, "hist": "fresh"}, s))
+            for h in hists + (["same-signature-variant"] if nm in VARIANT_ENTRIES else []):
+                for s in seeds(nm, lang, False):
+                    jobs.append(({**base, "hist": h}, s))
     return names, jobs
 
 
